@@ -888,7 +888,9 @@ class PythonPrimitiveToStoneDecoder:
                     ret = val
             else:
                 try:
-                    ret = base64.b64decode(val)
+                    # validate=True: characters outside the alphabet are an
+                    # error instead of being skipped
+                    ret = base64.b64decode(val, validate=True)
                 except (TypeError, ValueError):
                     # binascii.Error is a ValueError; non-ASCII text raises ValueError
                     raise bv.ValidationError('invalid base64-encoded bytes')
